@@ -633,3 +633,6 @@ ITEMS = [
     Item('unpivot.package-phase', sym_unpivot_pkg, [('end-to-end', nat_unpivot_flow)], 'dataflows/processors/unpivot.py::unpivot.func'),
     Item('recorded-findings', None, [('bounded', KF.nat_findings_c17)], 'dataflows/processors/deduplicate.py::deduper'),
 ]
+
+from contracts import reuse as _REUSE   # noqa: E402
+ITEMS.append(Item('second-use', None, [('catalogue', _REUSE.nat_second_use_for('C17'))], 'dataflows/processors/unpivot.py::unpivot.func'))
